@@ -766,7 +766,10 @@ fn new_worker() -> Worker {
     ));
     let vk = keys().configured.verification_key().to_json_hex().expect("verification key hex");
     let client = ClientBuilder::new(AggregatorDiscoveryType::Url("http://127.0.0.1:9/".to_string()))
-        .set_genesis_verification_key(GenesisVerificationKey::JsonHex("not-used-by-download-unpack".to_string()))
+        .set_genesis_verification_key(GenesisVerificationKey::JsonHex(
+            // download_unpack never consults it; any well-formed Ed25519 key does
+            keys().other.verification_key().to_json_hex().expect("verification key hex"),
+        ))
         .with_http_file_downloader(downloader)
         .set_ancillary_verification_key(vk)
         .build()
@@ -1080,10 +1083,33 @@ fn judge(case: &Case, obs: &Observed) -> Judgement {
         .cloned()
         .collect();
     if !outside.is_empty() {
-        j.violations.push((
-            "C19/write-outside-target-directory".into(),
-            format!("nodes outside the target directory were created/changed/removed: {}", describe(&outside)),
-        ));
+        // classify by what was written: ancillary files moved through a link, a marker written
+        // through a link, anything else
+        let mut buckets: BTreeMap<&str, Vec<String>> = BTreeMap::new();
+        for k in &outside {
+            let anc_bytes = matches!(obs.after.get(k), Some(Node::File(c)) if c.starts_with(b"ANC|"));
+            let marker = matches!(obs.after.get(k), Some(Node::File(c)) if c.is_empty() || c == NETWORK_MAGIC.as_bytes())
+                && matches!(obs.before.get(k), Some(Node::File(c)) if c.starts_with(b"VICTIM|"));
+            let key = if anc_bytes {
+                "C19/ancillary-files-moved-outside-target-through-unpacked-symlink"
+            } else if marker {
+                "C19/bootstrap-marker-written-outside-target-through-unpacked-symlink"
+            } else if obs.after.get(k) == Some(&Node::Dir) {
+                continue;
+            } else {
+                "C19/write-outside-target-directory"
+            };
+            buckets.entry(key).or_default().push(k.clone());
+        }
+        if buckets.is_empty() {
+            buckets.insert("C19/write-outside-target-directory", outside.clone());
+        }
+        for (key, ks) in buckets {
+            j.violations.push((
+                key.into(),
+                format!("nodes outside the target directory were created/changed/removed: {}", describe(&ks)),
+            ));
+        }
     }
     for k in &removed {
         if k.starts_with("target/") {
@@ -1177,8 +1203,8 @@ fn judge(case: &Case, obs: &Observed) -> Judgement {
         } else if org == "IMM" {
             if trio_number(rel).is_some() {
                 "C19/immutable-number-outside-range-survives"
-            } else if first == "immutable" {
-                "C19/unexpected-entry-inside-immutable-dir-survives"
+            } else if rel.starts_with("immutable/") {
+                "C19/entry-nested-under-expected-immutable-name-survives"
             } else {
                 "C19/immutable-archive-entry-outside-immutable-dir-survives"
             }
@@ -1502,6 +1528,9 @@ fn run_case(case: &Case, verbose: bool) -> Report {
     let mut seen = BTreeSet::new();
     for (key, what) in j.violations {
         if seen.insert(key.clone()) {
+            if std::env::var("C19_DUMP").is_ok() {
+                eprintln!("DUMP\t{key}\t{}\t{cj}", if ok { "ok" } else { "err" });
+            }
             rep.violation(
                 &key,
                 format!("{what} || case: {cj} || download_unpack returned {}", match &obs.result { Ok(()) => "Ok".to_string(), Err(e) => format!("Err({})", e.chars().take(200).collect::<String>()) }),
